@@ -47,7 +47,10 @@ LEVELS = {
 }
 LEAVES = {'int': (lambda i: i, lambda i: 's%d' % i), 'str': (lambda i: 's%d' % i, lambda i: i),
           # ignorable leaves (nothing violates them): dict[str, Any], Mapping[object, int] ... still have a checked side
-          'Any': (lambda i: i, None), 'object': (lambda i: 's%d' % i, None)}
+          'Any': (lambda i: i, None), 'object': (lambda i: 's%d' % i, None),
+          # a union leaf whose conforming items match only the LAST member (each earlier member gets to look first)
+          'Union[int, list[str], frozenset[str]]': (lambda i: frozenset({'s%d' % i}), lambda i: 1.5 + i),
+          'Union[bytes, tuple[int, ...], dict[str, int]]': (lambda i: {'k': i}, lambda i: 's%d' % i)}
 READ_BOUND = {'seq': 1, 'hashed': 1, 'reit': 1, 'quasi': 1, 'mapval': 2, 'mapkey': 2}
 NONCOLL = [
     ('Iterable[int]', 'PyIterable'), ('Iterable[int]', 'PyIterator'), ('Iterable[int]', 'generator'),
@@ -66,7 +69,10 @@ def gen_shape(rng):
         pool = [n for n, (_, kind, _) in LEVELS.items()
                 if last or kind not in ('hashed', 'mapkey')]   # hashed levels hold leaves only
         names.append(rng.choice(pool))
-    leaf = rng.choice(['int', 'int', 'str', 'str', 'Any', 'object'])
+    leaf = rng.choice(['int', 'int', 'str', 'str', 'Any', 'object', 'Union[int, list[str], frozenset[str]]',
+                       'Union[bytes, tuple[int, ...], dict[str, int]]'])
+    if LEVELS[names[-1]][1] in ('hashed', 'mapkey') and 'dict[str, int]' in leaf:
+        leaf = 'Union[int, list[str], frozenset[str]]'       # (items of hashed levels must be hashable)
     wrap = rng.choice((None, None, 'optional', 'annotated', 'tuple'))
     return names, leaf, wrap
 
